@@ -188,7 +188,8 @@ class Lex(Family):
             '(header names with 0-4 dots, "...\\n", "delta N\\n" with ASCII and non-ASCII digits, CR, NUL, astral and '
             'line-separator characters, JSON and diff lines); DiffX-shaped documents (1-5 valid or near-miss headers '
             'with options, bodies of JSON / diff / delta / example / "#." lines, missing final newline); UTF-8 writer '
-            'outputs of random well-ordered call sequences whose contents contain no "#."; '
+            'outputs of random well-ordered call sequences whose contents contain no "#.", and of contents that are n '
+            'copies of a 1/2/3/4-byte character (every n up to a bound) before every kind of next section; '
             'sub-lexer results are recorded from the implementation run; non-trivial = some token other than '
             'Token.Text is produced; distinct by the text')
 
@@ -206,6 +207,33 @@ class Lex(Family):
             yield dict(kind='big', text='#diffx: version=1.0, x=' + 'v' * n + '\n#.preamble: length=%d\n' % (n + 1) + 'p' * n + '\n#.change:\n')
             yield dict(kind='big', text='#diffx:\n#.change:\n#..file:\n#...diff: length=1\n' + '-' + 'a' * n + '\n+' + 'b' * n + '\n\n#diffx: not a header\n')
         yield dict(kind='big', text='#diffx: version=1.0\n' + ''.join('#.change:\n#..file:\n#...meta: length=3\n{}\n' for _ in range(150)))
+        # writer files whose content is n copies of one character (1, 2, 3 and 4 UTF-8 bytes; 1 or 2 UTF-16 units) for every
+        # n up to a bound, followed by every kind of next section: byte lengths, character counts and code-unit counts all
+        # differ, and every small difference between them coincides with the length of some following header
+        for n in range(1, (33 if quick else 97)):
+            for ch in ('a', '\u00e9', '\u20ac', '\U0001f600'):
+                for kind in ('preamble', 'diff'):
+                    for nxt in ('change', 'file', 'eof'):
+                        calls, headers = [], ['#diffx:']
+                        if kind == 'preamble':
+                            calls += [['write_preamble', sl.S(ch * n + '\n'), None, {'i': 0} if n % 2 else 'omitted', None, None],
+                                      ['new_change', None], ['new_file', None], ['write_meta', {'d': {'k': ch}}, None, 'omitted']]
+                            headers += ['#.preamble:', '#.change:', '#..file:', '#...meta:']
+                        else:
+                            calls += [['new_change', None], ['new_file', None], ['write_meta', {'d': {'path': 'a'}}, None, 'omitted'],
+                                      ['write_diff', sl.Bv(('-' + ch * n + '\n').encode('utf-8')), None, None, None]]
+                            headers += ['#.change:', '#..file:', '#...meta:', '#...diff:']
+                        if nxt == 'change':
+                            calls += [['new_change', None], ['new_file', None], ['write_meta', {'d': {'path': 'b'}}, None, 'omitted'],
+                                      ['write_diff', sl.Bv(b'-a\n+b\n'), None, None, None]]
+                            headers += ['#.change:', '#..file:', '#...meta:', '#...diff:']
+                        elif nxt == 'file':
+                            calls += [['new_file', None], ['write_meta', {'d': {'path': 'b'}}, None, 'omitted'],
+                                      ['write_diff', sl.Bv(b'-a\n+b\n'), None, None, None]]
+                            headers += ['#..file:', '#...meta:', '#...diff:']
+                        obs, data, per = sl.run_writer(sl.S('utf-8'), sl.S('1.0'), calls)
+                        if data is not None and all(p_[0] for p_ in per):
+                            yield dict(kind='writer', text=data.decode('utf-8'), headers=headers, sweep=True)
         want = 250 if quick else 4000
         got = 0
         tries = 0
